@@ -21,7 +21,7 @@ import zipfile
 
 import numpy as np
 
-from common import REPO, VERIF, coq_list, coq_nat, coq_z, coq_bool, qc, qc_list, qc_mat, frac
+from common import REPO, VERIF, source_pins, coq_list, coq_nat, coq_z, coq_bool, qc, qc_list, qc_mat, frac
 
 TRUSTED_BASE = [
     "Coq 8.16.1 kernel + coqc; vm_compute only in Examples / _refuted witnesses and in the correspondence shards (no native_compute)",
@@ -42,6 +42,45 @@ RULE = ("programs {ORCA,G09,NWChem,QChem,XTB,MOPAC} x atom counts (quick 1..12, 
         "truncation point for small outputs and a strided + block-boundary set for large ones; character-level cuts (after the label, after the sign, mid-number, last exponent digit missing) inside the value lines of the last step; xyz: species 1..40 atoms x "
         "charge x mult x solvent x energy x {1..4} frames, every implicit solvent name of the library, malformed mutants; one Calculation object re-reading a completed / replaced / truncated file;  a case is non-trivial when a block wraps, "
         "several steps are present, the output is truncated or an error is expected; distinct by (program, n, steps, kind, variant, cut)")
+
+# every function the hand model (coq/C18/Model.v) and the synthesisers / independent readers were written from
+# (no translator for C18).  Property setters (Species.gradient / hessian / coordinates, Atoms.coordinates) cannot be
+# addressed by name (the getter of the same name comes first); their shape checks are exercised by the streams.
+def _w(mod, cls, names):
+    return [(f"autode/wrappers/{mod}.py", f"{cls}.{n}") for n in names]
+
+
+PINS = (
+    _w("ORCA", "ORCA", ["_energy_from", "coordinates_from", "partial_charges_from", "gradient_from", "_start_line_hessian",
+                        "hessian_from", "terminated_normally_in"])
+    + _w("G09", "G09", ["_energy_from", "coordinates_from", "partial_charges_from", "gradient_from", "hessian_from",
+                        "terminated_normally_in"])
+    + [("autode/wrappers/G09.py", "_calc_uses_external_method"), ("autode/wrappers/G09.py", "_freq_in_keywords")]
+    + _w("NWChem", "NWChem", ["_energy_from", "coordinates_from", "partial_charges_from", "gradient_from",
+                              "_atom_masses_from_hessian", "hessian_from", "terminated_normally_in"])
+    + _w("QChem", "QChem", ["_energy_from", "coordinates_from", "gradient_from", "hessian_from", "_raw_opt_gradient",
+                            "_raw_scf_grad", "_extract_atomic_masses", "_extract_mass_weighted_hessian",
+                            "terminated_normally_in"])
+    + _w("XTB", "XTB", ["_energy_from", "_get_final_coords_6_2_above", "_get_final_coords_old", "coordinates_from",
+                        "partial_charges_from", "gradient_from", "terminated_normally_in"])
+    + _w("MOPAC", "MOPAC", ["_energy_from", "coordinates_from", "gradient_from", "terminated_normally_in"])
+    + [("autode/wrappers/methods.py", "ExternalMethod.energy_from"), ("autode/wrappers/methods.py", "ExternalMethod.atoms_from"),
+       ("autode/geom.py", "symm_matrix_from_ltril"),
+       ("autode/input_output.py", "xyz_file_to_atoms"), ("autode/input_output.py", "atoms_to_xyz_file"),
+       ("autode/input_output.py", "xyz_file_to_molecules"), ("autode/input_output.py", "attrs_from_xyz_title_line"),
+       ("autode/input_output.py", "_check_xyz_file_exists"), ("autode/input_output.py", "_set_attr_from_title_line"),
+       ("autode/input_output.py", "_n_atoms_from_first_xyz_line"),
+       ("autode/utils.py", "StringDict"), ("autode/utils.py", "NumericStringDict"), ("autode/utils.py", "no_exceptions"),
+       ("autode/utils.py", "requires_output_to_exist"),
+       ("autode/calculations/output.py", "CalculationOutput"),
+       ("autode/calculations/executors.py", "CalculationExecutor.set_properties"),
+       ("autode/calculations/executors.py", "CalculationExecutor._no_except_set_gradient"),
+       ("autode/calculations/executors.py", "CalculationExecutor._no_except_set_hessian"),
+       ("autode/calculations/executors.py", "CalculationExecutor.terminated_normally"),
+       ("autode/calculations/calculation.py", "Calculation.set_output_filename"),
+       ("autode/calculations/calculation.py", "Calculation._check_properties_exist"),
+       ("autode/species/species.py", "Species.print_xyz_file"), ("autode/species/molecule.py", "Molecule._init_xyz_file"),
+       ("autode/atoms.py", "Atom.__init__")])
 
 SLICE = ["lib/Sums.v", "lib/QcInst.v", "C18/Model.v", "C18/Lemmas.v", "C18/Props.v", "C18/Corr.v"]
 PRE = ("From Coq Require Import ZArith QArith Qcanon List String Ascii Bool.\nFrom AV.lib Require Import QcInst.\n"
@@ -2181,7 +2220,7 @@ def stream_model(ctx, meths, F, atom_counts, trunc_limit, n_titles):
     add(f"check_same_key {coq_str(rk)} {coq_str(wk)}", {"kind": "title-key", "reader": rk, "writer": wk}, ("title-key",))
     # ---------------- xyz readers on token lines
     stream_model_xyz(ctx, add, rk)
-    bad, err = ctx.coq_bad_indices(PRE, terms, per_file=60, name="c18cases", timeout=900)
+    bad, err = ctx.coq_bad_indices(PRE, terms, per_file=100, name="c18cases", timeout=900)
     return [(descr[i], terms[i]) for i in bad], err
 
 
@@ -2307,9 +2346,9 @@ def stream_model_xyz(ctx, add, reader_key):
 # ============================================================================ entry points
 def tiers(ctx):
     if ctx.quick:
-        return {"complete": [1, 2, 3, 4, 5, 6, 7, 10, 12], "steps": [1, 3], "trunc": [(1, 120), (2, 50), (3, 24)], "reuse": [2, 7], "chars": ([2], 14),
+        return {"complete": [1, 2, 3, 4, 5, 6, 7, 10, 12], "steps": [1, 3], "trunc": [(1, 90), (2, 40), (3, 16)], "reuse": [2, 7], "chars": ([2], 10),
                 "xyz": ([1, 2, 3, 5, 8, 12], 3),
-                "model": ({"orca": [1, 2, 3], "qchem": [1, 3], "nwchem": [2, 4], "g09": [1, 3]}, 8, 20)}
+                "model": ({"orca": [1, 2, 3], "qchem": [1, 3], "nwchem": [2, 4], "g09": [1, 3]}, 6, 12)}
     return {"complete": list(range(1, 41)), "steps": [1, 3], "trunc": [(1, 1000), (2, 1000), (3, 600), (5, 300), (7, 200), (12, 150)],
             "reuse": [1, 2, 3, 6, 7, 12, 20], "chars": ([1, 2, 3, 5], 30), "xyz": (list(range(1, 41)), 4),
             "model": ({p: [1, 2, 3, 4, 5] for p in ("orca", "qchem", "nwchem", "g09")}, 30, 300)}
@@ -2318,6 +2357,10 @@ def tiers(ctx):
 def run(ctx):
     sys.path.insert(0, REPO)
     T = tiers(ctx)
+    pins_changed = source_pins(ctx.pid, PINS)
+    ctx.cov["source_pins"] = {"pinned": len(PINS), "changed": pins_changed}
+    if pins_changed:
+        ctx.log("source pins changed:", pins_changed)
     ok, info = ctx.proofs(SLICE, "C18/Props.v", "AV.C18.Props", extra_targets=["C18/Corr.vo"])
     ctx.log("proofs:", "ok" if ok else "BROKEN")
     ctx.cov["print_assumptions"] = info.get("assumptions", {})
@@ -2369,6 +2412,9 @@ def run(ctx):
         ctx.check_known_still_fail(set(F.seen))
     finally:
         os.chdir(cwd)
+    if pins_changed and ok and not ctx.violations and not (corr_bad or corr_err):
+        ctx.violation("hand model no longer pinned to the source: " + ", ".join(pins_changed),
+                      {"kind": "source-pin", "changed": pins_changed}, found_input=False)
     if not ok:
         ctx.proof_failure(info, found_any_input=bool(ctx.violations))
     if corr_bad or corr_err:
@@ -2400,7 +2446,7 @@ def replay(ctx, obj):
         meths = _imports()
         F = Findings(ctx)
         st = rep.get("stream")
-        if st in ("synth-complete", "synth-truncated"):
+        if st in ("synth-complete", "synth-truncated", "synth-char-truncated"):
             prog, n, nsteps, variant, kind = rep["prog"], rep["n"], rep["nsteps"], rep["variant"], rep["kind"]
             case, S = build_case(ctx, prog, n, nsteps, variant)
             materialise(prog, variant, case, S)
@@ -2408,6 +2454,11 @@ def replay(ctx, obj):
             xyz0 = case.steps[0]["xyz"]
             if st == "synth-truncated":
                 write_files({rep["target"]: S.files[rep["target"]][:rep["cut"]]})
+            if st == "synth-char-truncated":
+                full = S.files[rep["target"]]
+                with open(rep["target"], "w") as f:
+                    f.write("\n".join(full[:rep["line"]] + [full[rep["line"]][:rep["column"]]]))
+                rep = dict(rep, cut=rep["line"])
             r = run_calc(meths, prog, kind, case, S.main, xyz0)
             print("outcome:", "ok" if r["ok"] else r["exc"], "| energy", r["energy"], "expected", E["energy"])
             if st == "synth-complete":
@@ -2417,6 +2468,8 @@ def replay(ctx, obj):
                 check_truncated(F, ctx, prog, kind, variant, case, S, r, E, xyz0, rep, rep["cut"], rep["target"], term)
         elif st == "real-files":
             stream_real(ctx, meths, F, unpack_real(ctx))
+        elif st == "reuse":
+            stream_reuse(ctx, meths, F, [rep["n"]])
         elif st in ("xyz", "xyz-malformed"):
             stream_xyz(ctx, F, [1, 2, 3, 5], 2)
         else:
